@@ -307,6 +307,11 @@ class Equalizer(object):
         """
         Creates and start new player process, ready to take playback tasks
         """
+        # Fresh queues for every worker: whatever the previous (dead or killed) worker left behind in the shared
+        # queues - an answer that arrived after its timeout, a task it never took, a queue lock it held when it was
+        # killed - must not reach the comparisons served by this one
+        self._compare_tasks = mp.Queue()
+        self._compare_results = mp.Queue()
         self._compare_process = mp.Process(
             target=self._playback_process_target, name='Playback runner')
         self._compare_process.start()
